@@ -433,11 +433,13 @@ def apply_measures(
         _description_
     """
     # applying association measure to each column
-    associations = (
-        X[features]
-        .apply(feature_association, y=y, measures=measures, **kwargs, result_type="expand", axis=0)
-        .T
-    )
+    # (not with DataFrame.apply: it relabels the measures whenever there are as many rows in X)
+    associations = DataFrame(
+        {
+            feature: feature_association(X[feature], y=y, measures=measures, **kwargs)
+            for feature in features
+        }
+    ).T
 
     return associations
 
